@@ -566,3 +566,43 @@ Proof.
     + apply orb_true_iff. right. cbn [is_nil negb andb list_max fold_right].
       apply N.ltb_lt. lia.
 Qed.
+
+Lemma retain_only_sub ids l x : In x (retain_only ids l) -> In x l.
+Proof. unfold retain_only. intros H. apply filter_In in H. tauto. Qed.
+
+(* whole notification sequences: whatever the delays, the newest DKV checkpoint taken is still held at the end *)
+Definition RJ (l : list N) (next : N) : Prop :=
+  (forall x, In x l -> x < next) /\ ((l = [] /\ next = 1) \/ In (next - 1) l) /\ 1 <= next.
+
+Lemma retain_run_keeps_newest_lemma steps : forall l next,
+  RJ l next -> retain_valid l next steps ->
+  (taken next steps = 0 /\ retain_run l next steps = []) \/ In (taken next steps) (retain_run l next steps).
+Proof.
+  induction steps as [|st steps IH]; intros l next (Hb & Hn & H1) Hv.
+  - cbn [taken retain_run]. destruct Hn as [[E1 E2]|Hn]; [left; subst; split; reflexivity|right; exact Hn].
+  - destruct st as [|id]; cbn [taken retain_run retain_valid] in *.
+    + apply IH; [|exact Hv]. split; [|split].
+      * intros x Hx. apply in_app_or in Hx. destruct Hx as [Hx|[Hx|[]]]; [specialize (Hb x Hx); lia|subst; lia].
+      * right. replace (next + 1 - 1) with next by lia. apply in_or_app. right. left. reflexivity.
+      * lia.
+    + destruct Hv as [Hid Hv]. apply IH; [|exact Hv].
+      assert (Hlast : In (next - 1) l).
+      { destruct Hn as [[E _]|Hn]; [subst l; destruct Hid|exact Hn]. }
+      assert (Hmax : list_max l = next - 1).
+      { apply N.le_antisymm.
+        - assert (Hm : In (list_max l) l) by (apply list_max_In; intros E; rewrite E in Hid; destruct Hid).
+          specialize (Hb _ Hm). lia.
+        - apply list_max_ge. exact Hlast. }
+      split; [|split].
+      * intros x Hx. apply Hb. exact (retain_only_sub _ _ _ Hx).
+      * right. rewrite <- Hmax. apply retain_only_keeps_newest_lemma. exact Hid.
+      * exact H1.
+Qed.
+
+Theorem retain_run_from_start steps :
+  retain_valid [] 1 steps ->
+  (taken 1 steps = 0 /\ retain_run [] 1 steps = []) \/ In (taken 1 steps) (retain_run [] 1 steps).
+Proof.
+  intros Hv. apply retain_run_keeps_newest_lemma; [|exact Hv].
+  split; [intros x []|]. split; [left; split; reflexivity|lia].
+Qed.
